@@ -295,6 +295,19 @@ theorem C03_read_back (cls : Cls) (kvs : List (Str × Val)) (q : Pos) (kcls : Cl
     getItem fuel t' (replace sNew sLast (slash ++ renderPos q ++ (s :: steps).flatMap renderCStep)) = (t', .ok v) :=
   getItem_readback_steps cls kvs q kcls nkvs s steps v cur' t' fuel hp hget hfirst hidx hsteps hnq hnp hcreate hset hf
 
+/-- **C03 (read back, every path of `C03_create`).**  The same for every first step of the honoured
+grammar, also a bare `[new()]`/`[len]` below a list (`//x[0][new()]/m` reads back through
+`//x[0][last()]/m`).  No hypothesis about enclosing plain lists is needed here: the statement is
+about the tree `createIn` describes. -/
+theorem C03_read_back_any (cls : Cls) (kvs : List (Str × Val)) (q : Pos) (cur cur' : Val) (s : CStep)
+    (steps : List CStep) (v t' : Val) (fuel : Nat)
+    (hp : PlainPos q) (hget : getAt (.dict cls kvs) q = some cur) (hfirst : s.first)
+    (hsteps : ∀ x ∈ steps, x.later) (hnq : NoParenPos q) (hnp : ∀ x ∈ s :: steps, NoParen x.nameOf)
+    (hcreate : createIn cur (s :: steps) v = some cur') (hset : setAt (.dict cls kvs) q cur' = some t')
+    (hf : fuel ≥ 2 * (q.length + steps.length + 1)) :
+    getItem fuel t' (replace sNew sLast (slash ++ renderPos q ++ (s :: steps).flatMap renderCStep)) = (t', .ok v) :=
+  getItem_readback_any cls kvs q cur cur' s steps v t' fuel hp hget hfirst hsteps hnq hnp hcreate hset hf
+
 /-- the text that is read: every `new()` index has become `last()`, nothing else has changed -/
 theorem C03_read_back_path (q : Pos) (steps : List CStep) (hq : NoParenPos q) (hsteps : ∀ x ∈ steps, x.noParen) :
     replace sNew sLast (slash ++ renderPos q ++ steps.flatMap renderCStep)
@@ -502,6 +515,20 @@ example : setItem 40 exTree3 ['/', '/', 'x', '[', '0', ']', '[', 'n', 'e', 'w', 
       obtain ⟨rfl, hi⟩ := List.append_inj' (show [Seg.key ['x']] ++ [Seg.idx 0] = q0 ++ [Seg.idx i] from hq) rfl
       simp [getAt, child, lookup] at hg)
     (by decide)
+
+/-- … and its read-back through `'//x[0][last()]/m'` (`C03_read_back_any`) -/
+example : getItem 40 (.dict .n0 [(['x'], .list .n0 [.list .n0 [.int 1, .dict .n0 [(['m'], .int 5)]]]),
+        (['p'], .list .plain [.list .plain []])])
+      (replace sNew sLast ['/', '/', 'x', '[', '0', ']', '[', 'n', 'e', 'w', '(', ')', ']', '/', 'm'])
+    = (.dict .n0 [(['x'], .list .n0 [.list .n0 [.int 1, .dict .n0 [(['m'], .int 5)]]]),
+        (['p'], .list .plain [.list .plain []])], .ok (.int 5)) :=
+  C03_read_back_any .n0 _ [.key ['x'], .idx 0] (.list .n0 [.int 1]) _ (.idx ['n', 'e', 'w', '(', ')']) [.name ['m']] (.int 5) _ 40
+    ⟨pk_x, trivial⟩ (rfl : getAt exTree3 _ = _) trivial (by intro x hx; simp at hx; subst hx; exact pk_m)
+    ⟨np 'x', trivial⟩
+    (by intro x hx; simp at hx; rcases hx with rfl | rfl
+        · intro c hc; simp [CStep.nameOf] at hc
+        · exact np 'm')
+    rfl (by decide) (by decide)
 
 /-- `d['//x[new()]'] = 5`: bare `[new()]` below a list held by a key (`C03_create`, the text of `x[new()]`) -/
 example : setItem 40 exTree3 ['/', '/', 'x', '[', 'n', 'e', 'w', '(', ')', ']'] (.int 5)
